@@ -127,6 +127,37 @@ def obligations(tier, seed):
 """
         obs.append(Ob(f"stored.outofrange.d{depth}", build(p_ + [R("w", 0, 2**31 - 1)], body, setup=SETUP), f"depth {depth}: a stored user-defined value outside the mapped controller's range loads (also after the nested load) and is preserved by save/load",
                       group="stored", shape=f"synth(MetaModule) depth {depth}, stored word of user-defined #1 replaced in the written stream", symbolic="stored word 0..2^31-1 + embedded values", timeout=600))
+    # the boundary count 96: the LAST stored value (CVAL #101) replaced by an arbitrary word must come back as user-defined #96
+    p_, l_ = build_mm(96, rnd)
+    code = "\n".join("    " + l for l in l_)
+    body = f"""
+{code}
+    data = list(save_bytes(Synth(mm)))
+    ch = RF.walk(data)
+    cv = [i for i, (cid, pl) in enumerate(ch) if cid == b"CVAL"]
+    if len(cv) != 101:
+        return False
+    out = []
+    for i, (cid, pl) in enumerate(ch):
+        out += RF.ck(cid, RF.u32(w) if i == cv[100] else (RF.u32(w2) if i == cv[99] else pl))
+    m2 = load_bytes(out).module
+    return m2.user_defined_controllers == 96 and m2.get_raw("user_defined_96") == w and m2.get_raw("user_defined_95") == w2 and all(c.attached(m2) for c in m2.user_defined)
+"""
+    obs.append(Ob("stored.last96", build(p_ + [R("w", 0, 2**31 - 1), R("w2", 0, 2**31 - 1)], body, setup=SETUP), "with all 96 user-defined controllers in use the 100th and 101st stored values are decoded into user-defined #95 and #96",
+                  group="stored", shape="synth(MetaModule) n=96, last two stored words replaced in the written stream", symbolic="two stored words", timeout=900))
+    # no label chunks at all (the options chunk is then the LAST module-specific chunk of the MetaModule)
+    for ctx in ("synth", "project"):
+        p_, l_ = build_mm(3, rnd)
+        code = "\n".join("    " + l for l in l_)
+        rtc = "m2 = rt(Synth(mm)).module" if ctx == "synth" else "p = Project()\n    p.attach_module(mm)\n    m2 = rt(p).modules[1]"
+        body = f"""
+{code}
+    s1 = snap_module(mm, groups=G)
+    {rtc}
+    return same(s1, snap_module(m2, groups=G)) and [c.attached(m2) for c in m2.user_defined][:4] == [True, True, True, False] and m2.user_defined[0].label is None
+"""
+        obs.append(Ob(f"rt.{ctx}.nolabel", build(p_, body, setup=SETUP), f"a MetaModule with 3 user-defined controllers and NO labels ({ctx}): count, attachment, mappings and values survive",
+                      group="rt", shape=f"{ctx}; n=3, no label chunks", symbolic="embedded controller values", timeout=600))
     # nesting: a MetaModule inside the embedded project of a MetaModule (depth 2, thorough 3)
     for depth in ((2,) if tier == "quick" else (2, 3)):
         p_in, l_in = build_mm(2, rnd, var="inner", pfx="i_")
